@@ -312,6 +312,12 @@ def check_adapter(ctx):
     want5 = ('target', 'creds', 'enforcer', 'current_rule')
     shapes = {k[0] for k in rows}
     for (args, _nothr, _k), (thr, kws, okshape, p) in rows.items():
+        if kws and okshape:
+            ctx.ob('C06.ADAPTER', False, W, f.qual, 'call shape %s %s' % (
+                args, kws), 'the rule name is handed to the check by '
+                'keyword, chosen by something other than the number of '
+                'parameters its __call__ declares')
+            continue
         if not okshape or kws:
             raise AnalysisError(
                 'the adapter %s passes its arguments in a way the analysis '
